@@ -144,6 +144,8 @@ def check_exhaustive(case, cond, finite):
     eos = _norm_eos(case["eos"], V)
     T = case["max_iters"]
     exp = {tuple(p): declm.py_chain(spec, cond, p) for p in complete_sequences(V, eos, T)}
+    # sequences the model gives probability zero cannot be told from unusable slots (documented)
+    exp = {p: v for p, v in exp.items() if v > NEG_INF}
     got = dict(finite)
     require(set(got) == set(exp), "exhaustive regime: finite slots are not exactly the complete sequences",
             sorted(map(list, got)), sorted(map(list, exp)))
@@ -166,13 +168,13 @@ def is_exhaustive_regime(case):
 
 
 def _search_cases(tier, regime="any", batch_choices=(None, 1, 2, 3), eos_kinds=("pos", "none", "pos", "pos", "neg"),
-                  contrast=False):
+                  contrast=False, zero_prob=False):
     maxT = 4 if tier == "quick" else 5
     Ts = [3, 0, 1, 2, 2, 3, 3] + [4] * 3 + ([5] * 3 if maxT >= 5 else [])
 
     @st.composite
     def _s(draw):
-        spec = draw(declm.lm_specs(1, 4, max_cond=3, min_cond=2 if contrast else 1))
+        spec = draw(declm.lm_specs(2 if zero_prob else 1, 4, max_cond=3, min_cond=2 if contrast else 1, zero_prob=zero_prob))
         V, C = spec["V"], len(spec["cond"])
         kind = draw(st.sampled_from(list(eos_kinds)))
         if kind == "none":
@@ -182,6 +184,10 @@ def _search_cases(tier, regime="any", batch_choices=(None, 1, 2, 3), eos_kinds=(
         else:
             eos = draw(st.integers(-V, -1))
         finish_all = draw(st.booleans())
+        if zero_prob:
+            # with finish_all_paths a zero-probability path that never emits eos keeps the search alive after every
+            # live path has finished; the documentation warns that such paths cannot be told from invalid ones
+            finish_all = False
         T = draw(st.sampled_from(Ts))
         if regime == "exhaustive":
             T = min(T, 3 if V >= 4 else maxT)
@@ -279,6 +285,20 @@ subcheck("C04", "exhaustive", lambda tier: _search_cases(tier, "exhaustive"), 50
          doc="forced exhaustive regime (eos unset, or eos set with finish_all_paths; max_iters = T; width >= number of complete "
              "sequences): finite slots == enumerated complete sequences with their chained scores",
          required_classes=["exhaustive_regime", "width_exact", "width_beyond_exhaustive"])(_validity_check)
+
+
+def _zero_prob_check(case):
+    info = _validity_check(case)
+    if case["lm"].get("ninf"):
+        info.classes.append("zero_probability_tokens")
+    return info
+
+
+subcheck("C04", "zero_prob_lm", lambda tier: _search_cases(tier, "any", zero_prob=True), 600, 12000,
+         doc="language models that give some tokens probability exactly zero (-inf log-probability): a slot with a finite score "
+             "must still carry the chained log-probability of its path (so no zero-probability sequence may come back with a "
+             "finite score); exhaustive regime compared on the positive-probability sequences",
+         required_classes=["zero_probability_tokens", "width_beyond_exhaustive"])(_zero_prob_check)
 
 
 def _match_lists(a, b, what, tol=1e-4):
